@@ -250,10 +250,21 @@ def measure_blocks(draw, tier, small=False):
             opts += ["gate", "bra", "bra"]
         if len(scan) < cap:
             opts += ["bits"]
+        bs = [i for i, w in enumerate(scan) if w[0] == "bit"]
+        if bs and qs:
+            opts += ["bdiscard", "measure"]
         if not opts:
             break
         kind = draw(st.sampled_from(opts))
-        if kind == "bra":
+        if kind == "bdiscard":
+            # a bit thrown away while qubits are alive (mostly to its right)
+            left_of_qubit = [i for i in bs if any(q > i for q in qs)]
+            add({"k": "g", "g": "Discard", "a": ["bit"]},
+                draw(st.sampled_from(left_of_qubit or bs)))
+        elif kind == "measure":
+            add({"k": "g", "g": "Measure", "a": [1, True, False]},
+                draw(st.sampled_from(qs)))
+        elif kind == "bra":
             off = draw(st.sampled_from(qs))
             k = 1
             while off + k in qs and draw(st.booleans()):
